@@ -2,6 +2,7 @@ import Tumfl.Spec.Show
 import Tumfl.Model.Lexer
 import Tumfl.Model.Dump
 import Tumfl.Model.Layout
+import Tumfl.Model.Resolve
 /-!
 # Line-protocol driver
 
@@ -187,6 +188,21 @@ def handle (line : String) : String :=
       | .ok (b, _) => "ok " ++ formatStages sty b
       | .error e => "err " ++ showPyErr e
     | _, _ => "bad-op"
+  | "mresolve" :: main :: sps :: dirs :: files =>
+    let toPath (s : String) : Model.Path := (s.splitOn "/").filter (· != "")
+    let listOf (s : String) : List Model.Path := if s == "-" then [] else (s.splitOn ";").map toPath
+    let fileList : Option (List (Model.Path × List Char)) := files.mapM fun f =>
+      match f.splitOn "=" with
+      | [p, h] => (decodeText h).map fun c => (toPath p, c)
+      | _ => none
+    match fileList with
+    | none => "bad-op"
+    | some fl =>
+      let fs : Model.FS := { files := fl, dirs := listOf dirs }
+      let total := fl.foldl (fun a x => a + x.2.length) 0
+      match Model.resolveRecursive fs (toPath main) (listOf sps) (8 * total + 200) with
+      | .ok b => "ok " ++ Model.dumpBlock b
+      | .error e => "err " ++ showPyErr e
   | ["numval", h] =>
     match decodeText h with
     | none => "bad-op"
